@@ -279,6 +279,113 @@ def job_gravity(j, seed):
     return {'obligations': obs, 'candidates': cands, 'paths': len(paths)}
 
 
+LAYOUTS = {
+    'tiling': ([0, 2], [2, 5], 5),
+    'gap': ([0, 3], [2, 5], 5),             # event 2 belongs to no bin
+    'trailing': ([0, 2], [2, 4], 6),        # events 4, 5 unused at the end of the buffer
+    'slice': ([1, 3], [3, 4], 7),           # a slice of a larger object: events before, between the end of the slice and the buffer end
+    'empty-bin': ([0, 2, 2], [2, 2, 4], 5),
+}
+
+
+def job_convert_layout(j, seed):
+    """convert() hands the caller's events to transform_coords unchanged: same bins (begin/end into the same event
+    buffer, which need not be tiled by the bins), same weights, variances and event coordinates, same pixel coordinates
+    and masks; it returns what transform_coords returns and does not write to its input."""
+    layout, origin, target, tof_dtype = j
+    import numpy as np
+    from symex import core as C
+    from symex import loader
+    from symsc import variable as V
+    from symsc.bins import make_binned_layout
+    from .symutil import fresh_run, sym_vector
+
+    sc = loader.install_shim()
+    loader.load('conversion.graph.tof')
+    loader.load('conversion.graph.beamline')
+    conv = loader.load('core.conversions')
+    fresh_run()
+    obs, cands = [], []
+    tag = f'convert[{layout},{origin}->{target},{tof_dtype}]'
+    case = {'kind': 'convert-layout', 'layout': layout, 'origin': origin, 'target': target, 'dtype': tof_dtype}
+    begin, end, nev = LAYOUTS[layout]
+
+    def arr(name, n, sign=None):
+        a = np.empty((n,), dtype=object)
+        for i in range(n):
+            a[i] = C.sym_var(f'{name}{i}', sign=sign)
+        return a
+
+    ev_coord = V.Variable(_arr=arr('t', nev, '+'), dims=('event',), unit=V.parse_unit('us' if origin == 'tof' else 'angstrom'), dtype=V.as_dtype(tof_dtype))
+    weights = V.Variable(_arr=arr('w', nev), _var=arr('v', nev, '0+'), dims=('event',), unit=V.parse_unit('counts'), dtype=V.DType.float32)
+    events = sc.DataArray(weights, coords={origin: ev_coord, 'pulse_time': V.Variable(_arr=arr('p', nev), dims=('event',), unit=V.parse_unit('ns'), dtype=V.DType.int64)})
+    nb = len(begin)
+    binned = make_binned_layout(events, begin, end, ('spectrum',))
+    pos = np.empty((nb, 3), dtype=object)
+    for i in range(nb):
+        for k in range(3):
+            pos[i, k] = C.sym_var(f'pos{i}_{k}')
+    coords = {'position': V.Variable(_arr=pos, dims=('spectrum',), unit=V.parse_unit('m'), dtype=V.DType.vector3),
+              'source_position': sym_vector('src', 'm'), 'sample_position': sym_vector('smp', 'm')}
+    masks = {'m': sc.array(dims=['spectrum'], values=[False] * nb)}
+    calls = []
+
+    class RecDA(sc.DataArray):
+        def transform_coords(self, targets, graph=None, **kw):
+            calls.append((self, targets, graph, kw))
+            return ('converted', len(calls))
+
+        def copy(self, deep=True):
+            c = super().copy(deep=deep)
+            r = RecDA(c.data, coords=dict(c.coords), masks=dict(c.masks), name=c.name)
+            return r
+
+    da = RecDA(binned, coords=coords, masks=masks)
+    snap = {'begin': list(begin), 'end': list(end), 'buffer': events, 'vals': [x for x in weights._a], 'vars': [x for x in weights._v], 'tof': [x for x in ev_coord._a]}
+    V.WRITE_LOG.clear()
+    paths = C.explore(lambda: conv.convert(da, origin=origin, target=target, scatter=True), max_paths=8)
+    for k, p in enumerate(paths):
+        P = f'path{k}'
+        if p.inconclusive:
+            obs.append({'name': f'{tag}:{P}', 'status': 'inconclusive', 'detail': p.inconclusive[:200], 't': 0})
+            continue
+        if p.exc is not None:
+            obs.append({'name': f'{tag}:{P}:convert returns', 'status': 'violated', 'detail': repr(p.exc)[:200], 't': 0})
+            cands.append(('C06:convert:raises', case, repr(p.exc)[:100]))
+            continue
+
+        def chk(name, ok, sig):
+            ob = C.prove(f'{tag}:{P}:{name}', ok if isinstance(ok, C.B) else C.B.const(bool(ok)), pc=p.pc)
+            obs.append(ob_dict(ob))
+            if ob.status == 'violated':
+                cands.append((sig, case, name))
+            return ob.status == 'discharged'
+
+        if not chk('transform_coords is applied exactly once and its result is returned', len(calls) >= 1 and p.value == ('converted', len(calls)) and calls[-1][1] == target, 'C06:convert:delegation'):
+            continue
+        got = calls[-1][0]
+        gb = got.data.bins
+        if not chk('data handed on is binned', gb is not None, 'C06:convert:bins'):
+            continue
+        cons = gb.constituents
+        gbeg = [int(C.R.lift(x).const_value()) for x in cons['begin']._a.reshape(-1)]
+        gend = [int(C.R.lift(x).const_value()) for x in cons['end']._a.reshape(-1)]
+        chk(f'bin ranges unchanged (begin {snap["begin"]}, end {snap["end"]}; got {gbeg}, {gend})', gbeg == snap['begin'] and gend == snap['end'], 'C06:convert:bin-membership')
+        buf = cons['data']
+        same_len = len(buf.data) == nev
+        chk('event buffer has the same length', same_len, 'C06:convert:bin-membership')
+        if same_len:
+            chk('weights, variances and the event coordinate of every event unchanged',
+                C.all_of([(buf.data.values[i] == snap['vals'][i]) & (buf.data.variances[i] == snap['vars'][i]) & (buf.coords[origin].values[i] == snap['tof'][i]) for i in range(nev)])
+                & C.B.const(buf.data.dtype == weights.dtype and buf.data.unit == weights.unit and set(buf.coords.keys()) == {origin, 'pulse_time'}), 'C06:convert:events')
+        chk('pixel coordinates and masks handed on', set(got.coords.keys()) == set(coords) and all(got.coords[c_] is coords[c_] for c_ in coords) and set(got.masks) == {'m'}, 'C06:convert:coords')
+        written = {b.id for b in V.WRITE_LOG}
+        argb = {weights._buf.id, ev_coord._buf.id, binned._buf.id, *[c_._buf.id for c_ in coords.values()]}
+        chk('input not written', not (argb & written), 'C06:convert:mutation')
+        chk('input bins untouched', da.data is binned and binned._bins._layout['begin'] == snap['begin'] and binned._bins._layout['end'] == snap['end'], 'C06:convert:mutation')
+    return {'obligations': obs, 'candidates': cands, 'paths': len(paths)}
+
+
 def run(chk):
     sc, tof, bl, utils = _load()
     from symex import loader
@@ -291,6 +398,12 @@ def run(chk):
     run_jobs(chk, job_kernel, jobs)
     run_jobs(chk, job_inelastic, [(m, d) for m in ('direct', 'indirect') for d in ('float64', 'float32')])
     run_jobs(chk, job_gravity, ['float64', 'float32'])
+    conv = loader.load('core.conversions')
+    chk.functions += loader.describe([conv.convert, conv.deduce_conversion_graph, conv._deduce_energy_mode])
+    lj = [(lay, 'tof', tgt, d) for lay in LAYOUTS for tgt, d in (('wavelength', 'float64'), ('dspacing', 'int64'), ('energy', 'float32'))]
+    if chk.tier == 'thorough':
+        lj += [(lay, 'tof', tgt, d) for lay in LAYOUTS for tgt, d in (('Q', 'float32'), ('energy', 'int64'), ('wavelength', 'int32'))]
+    run_jobs(chk, job_convert_layout, lj)
     # validation (not a solver result): scn.convert on random binned layouts vs the dense conversion of the same events,
     # incl. what is scipp's own contract (weights, variances, order, masks, unrelated coordinates, input untouched)
     import json, os, subprocess
@@ -330,6 +443,33 @@ def replay_real(case):
         return sc.bins(begin=sc.array(dims=['spectrum'], values=begin, unit=None), dim='event', data=ev), ev, begin
 
     sizes = [2, 0, 1]
+    if case['kind'] == 'convert-layout':
+        import scippneutron as scn
+
+        begin, end, nev = LAYOUTS[case['layout']]
+        origin, target = case['origin'], case['target']
+        tv = np.sort(rng.uniform(1000.0, 9000.0, size=nev)).round(0)
+        ev = sc.DataArray(sc.array(dims=['event'], values=rng.random(nev), variances=rng.random(nev), unit='counts', dtype='float32'),
+                          coords={origin: sc.array(dims=['event'], values=tv, unit='us').astype(dt), 'pulse_time': sc.arange('event', nev, unit='ns')})
+        nb = len(begin)
+        b = sc.bins(begin=sc.array(dims=['spectrum'], values=begin, unit=None), end=sc.array(dims=['spectrum'], values=end, unit=None), dim='event', data=ev)
+        pos = sc.vectors(dims=['spectrum'], values=rng.normal(size=(nb, 3)) + [0, 0, 2.0], unit='m')
+        da = sc.DataArray(b, coords={'position': pos, 'source_position': sc.vector([0.0, 0.0, -10.0], unit='m'), 'sample_position': sc.vector([0.0, 0.0, 0.0], unit='m')},
+                          masks={'m': sc.array(dims=['spectrum'], values=[False] * nb)})
+        keep = da.copy()
+        try:
+            out = scn.convert(da, origin=origin, target=target, scatter=True)
+        except Exception as e:  # noqa: BLE001
+            return {'reproduced': True, 'detail': f'convert raises {type(e).__name__}: {e}'[:300]}
+        if not sc.identical(da, keep):
+            bad.append('convert modified its input')
+        for i in range(nb):
+            got = out['spectrum', i].values
+            exp = ev['event', begin[i]:end[i]]
+            if len(got) != len(exp) or not np.array_equal(got.values, exp.values) or not np.array_equal(got.variances, exp.variances) \
+                    or not sc.identical(got.coords['pulse_time'], exp.coords['pulse_time']):
+                bad.append(f'pixel {i} holds events {got.coords["pulse_time"].values.tolist()}, supplied {exp.coords["pulse_time"].values.tolist()} (layout begin={begin}, end={end}, {nev} events in the buffer)')
+        return {'reproduced': bool(bad), 'detail': '; '.join(bad[:2])}
     if case['kind'] == 'validate':
         import scippneutron as scn
 
